@@ -175,7 +175,7 @@ Proof.
     destruct (lookup_in s k LI Hik) as (pos & e' & Hg & Hget & Hk').
     assert (e' = e).
     { destruct LI as (ND & _ & _). apply (nodup_key_inj _ ND); [exact (get_In _ _ _ _ Hget)|exact Hin|congruence]. }
-    subst e'. unfold CacheModel.lru_check. rewrite Hg. unfold Peek.
+    subst e'. unfold CacheModel.lru_check, check_at. rewrite Hg. unfold Peek.
     pose proof (get_range _ _ _ _ Hget) as R.
     unfold Peek_negative, Peek_beyond.
     destruct (Z.ltb_spec pos 0); [lia|]. rewrite Z.geb_leb. destruct (Z.leb_spec (len (data (access s))) pos); [lia|].
@@ -219,7 +219,7 @@ Proof.
   assert (Hve : value e = v).
   { pose proof (find_ents _ _ ND (get_In _ _ _ _ Hget)) as F'. rewrite Hk', F in F'. congruence. }
   destruct (HF_remove (access s) pos (present s) e Hget ND PO) as (q' & m & HR & Hc & P & PO' & INC).
-  eexists. exists e. unfold CacheModel.lru_remove. rewrite Hg, HR. cbn.
+  eexists. exists e. unfold CacheModel.lru_remove, lremove_at. rewrite Hg, HR. cbn.
   split; [reflexivity|]. cbn.
   pose proof (linv_after_removal _ _ _ _ _ ND DO P PO' INC) as LI'. rewrite Hk' in LI'.
   split; [exact LI'|]. auto.
@@ -256,7 +256,7 @@ Proof.
   set (x := {| lastAccess := clock s + 1; key := k; value := v |}).
   assert (NDx : NoDup (pkeys (x :: data (access s)))) by (cbn; constructor; assumption).
   destruct (HF_add (access s) x (present s) NDx PO) as (q' & m & pos & HA & Hc & P & PO' & Hpos & INC).
-  eexists. unfold CacheModel.lru_store. rewrite Hg. unfold store_clock. fold x. rewrite HA. cbn.
+  eexists. unfold CacheModel.lru_store. rewrite Hg. unfold store_clock, store_stamp. fold x. rewrite HA. cbn.
   split; [reflexivity|]. cbn.
   assert (Hsame : forall k0, map_get (map_set (apply_moves m (present s)) k pos) k0 = map_get (apply_moves m (present s)) k0).
   { intro k0. destruct (keqb_dec K keqb keqb_spec k k0) as [<-|N].
@@ -298,7 +298,7 @@ Proof.
   assert (NDx : NoDup (pkeys (x :: data q1))) by (cbn; rewrite <- Hk'; exact ND1).
   destruct (HF_add q1 x _ NDx PO1) as (q2 & m2 & pos2 & HA & Hc2 & P2 & PO2 & Hpos2 & INC2).
   exists {| present := apply_moves m2 (apply_moves m1 (present s)); access := q2; clock := clock s + 1 |}, e, (data q1).
-  unfold CacheModel.lru_access. rewrite Hg, HR. cbn. unfold access_clock, access_stamp. rewrite Hk', Hve. fold x.
+  unfold CacheModel.lru_access, access_remove_at. rewrite Hg, HR. cbn. unfold access_clock, access_stamp. rewrite Hk', Hve. fold x.
   rewrite HA. cbn.
   split; [reflexivity|]. split; [|cbn; repeat split; try assumption; congruence].
   split; [|split]; cbn.
